@@ -9,7 +9,7 @@ import "gonum.org/v1/gonum/dsp/fourier/internal/fftpack"
 // DCT implements Discrete Cosine Transform for real sequences.
 type DCT struct {
 	work []float64
-	ifac [15]int
+	ifac [64]int
 }
 
 // NewDCT returns a DCT initialized for work on sequences of length n.
@@ -64,7 +64,7 @@ func (t *DCT) Transform(dst, src []float64) []float64 {
 // DST implements Discrete Sine Transform for real sequences.
 type DST struct {
 	work []float64
-	ifac [15]int
+	ifac [64]int
 }
 
 // NewDST returns a DST initialized for work on sequences of length n.
